@@ -747,6 +747,11 @@ impl PackageBuilder {
                 let header = payload::stripped_cpio_header(file_index as u32);
                 archive.write_all(&header)?;
                 archive.write_all(&content)?;
+                // file data is padded to a multiple of 4 bytes, as in the standard format
+                let overhang = content.len() % 4;
+                if overhang != 0 {
+                    archive.write_all(&[0u8; 4][..4 - overhang])?;
+                }
                 archive.flush()?;
             };
 
